@@ -1,14 +1,75 @@
-"""C08 -- interpreter engines (and, where the property has one, its emitted-C half): see engine/enginecheck.py."""
+"""C08 -- (a) dequeue discipline of the engines' step() (engine/enginecheck.py, tag T_DEQ) and of the emitted C (C04);
+(b) the real BasicEventQueue, single-threaded: every sequence of NOPS operations over {enqueue(tag), non-blocking dequeue,
+reset} (enumerated) with symbolic tags: FIFO order, exactly once, lock balance, consumer wake-up."""
+import os, re
 from common import *
 import enginecheck
+
+
+def queue_part(chk, W, tier):
+    native_build(['lib/libuscxml.so'])
+    clang_ir(REPO + '/src/uscxml/interpreter/BasicEventQueue.cpp', W + '/beq.ll')
+    clang_ir(VERIF + '/harness/c08_queue.cpp', W + '/qh.ll')
+    llvm_link([W + '/qh.ll', W + '/beq.ll'], W + '/qall.ll')
+    ir2c(W + '/qall.ll', ['q_new', 'q_enqueue', 'q_dequeue', 'q_reset'], W + '/q.c',
+         models=[VERIF + '/models/' + m for m in ('strmodels.txt', 'cxx.list', 'event.list', 'thread.list')],
+         stubs=[r'^_ZN6uscxml15BasicEventQueue9serializeE', r'^_ZN6uscxml15BasicEventQueue11deserializeE', r'^_ZN6uscxml15BasicEventQueue6createE'])
+    nops = 4 if tier == 'quick' else 5
+    total = 3 ** nops
+    chunk = 27
+    native_compile([VERIF + '/harness/c08_queue_native.cpp'], W + '/q_native')
+    nat = sh([W + '/q_native', str(nops)], env=lib_env(), check=False, timeout=120)
+    m = re.search(r'native: sequences=(\d+) mismatches=(\d+)', nat.stdout)
+    chk.tv_cases += int(m.group(1)) if m else 0
+    args = ['--unwind', '90', '--object-bits', '12', '--max-field-sensitivity-array-size', '200', '--unwindset', 'IR_MEMSET.0:1500,IR_MEMMOVE.0:1500,IR_MEMMOVE.1:1500']
+    jobs = [(a, min(a + chunk, total), False) for a in range(0, total, chunk)] + [(0, 3, True)]
+    def job(j):
+        a, b, wit = j
+        return cbmc(VERIF + '/harness/c08_queue_main.c', args, ['QUEUE_C="%s/q.c"' % W, 'SEQ_FROM=%d' % a, 'SEQ_TO=%d' % b, 'NOPS=%d' % nops, 'SCAP=8'] + (['WITNESS'] if wit else []),
+                    includes=[VERIF + '/models'], timeout=600 if tier == 'quick' else 3600)
+    res = pmap(job, jobs)
+    wit = [r for j, r in zip(jobs, res) if j[2]][0]
+    if wit.status != 'failed':
+        chk.infra_problem('queue harness: reachability witness not violated (%s)' % wit.status)
+    for j, r in zip(jobs, res):
+        if j[2]: continue
+        chk.query('queue/sequences %d..%d' % (j[0], j[1] - 1), r, bound='%d operations per sequence, tags symbolic' % nops, witness=wit)
+        if r.status == 'success': continue
+        if r.status != 'failed':
+            chk.infra_problem('queue sequences %d..%d: no verdict (%s)' % (j[0], j[1] - 1, r.status)); continue
+        props = sorted(set(d for n, d in r.failed))
+        if any('unwinding' in d or 'BOUND' in d or 'INCONCLUSIVE' in d for d in props):
+            chk.infra_problem('queue: inconclusive %s' % props[:3]); continue
+        lockonly = all('lock' in d or 'wakes' in d for d in props)
+        if (m and int(m.group(2)) > 0) or lockonly:
+            path = chk.write_replay('queue_%d' % j[0], {'kind': 'queue', 'nops': nops, 'failed': props, 'native': nat.stdout[-800:]})
+            chk.violation('BasicEventQueue, operation sequences %d..%d: %s%s' % (j[0], j[1] - 1, props[:3], '' if not lockonly else ' (lock discipline: decided on the lowered code, no native observable)'), path)
+        else:
+            chk.infra_problem('SPURIOUS queue counterexample (native run of all sequences passes): %s' % props[:3])
+    chk.functions += ['uscxml::BasicEventQueue::enqueue / dequeue(0) / reset (BasicEventQueue.cpp, lowered from LLVM IR)']
+    chk.assumptions += ['single thread: pthread mutex = depth counter, condition_variable::notify_all counted; blocking waits are not modelled (reaching one is inconclusive)',
+                        'operation sequences enumerated (3^%d), event tags symbolic; uscxml::Event reduced to its name' % nops]
+    chk.outside += ['producer/consumer interleavings, blocking dequeue, lost wake-ups, data races (threads are outside this technique)']
 
 
 def run(tier, seed):
     chk = Check('C08', tier, seed)
     W = workdir('C08')
+    queue_part(chk, W, tier)
     enginecheck.run_engines(chk, 'C08', W, tier, seed + 8, 4)
     return chk.finish()
 
 
 def do_replay(path):
+    import json
+    r = json.load(open(path))
+    if r.get('kind') == 'queue':
+        W = workdir('C08_replay')
+        native_build(['lib/libuscxml.so'])
+        native_compile([VERIF + '/harness/c08_queue_native.cpp'], W + '/q_native')
+        p = sh([W + '/q_native', str(r['nops'])], env=lib_env(), check=False)
+        log(p.stdout)
+        if p.returncode != 0:
+            log('VIOLATION property=C08 replay=%s' % path); return 1
+        return 0
     return enginecheck.do_replay('C08', path)
